@@ -49,9 +49,13 @@ Value& MemberCONCATExpression::value(Context& ctx) const
     /* a null table that has an element type is an empty table of that type:
      * what is concatenated goes through the same checks as for any table
      * (a table of tuples carries no declaration when null, it is left as is) */
+    bool materialized = false;
     if (val.isNull() && val.type().major() != Type::NO_TYPE && val.type().major() != Type::ROWTYPE
             && !_exp->isVarName())
+    {
       val.swap(Value(new Collection(val.type())).to_lvalue(val.lvalue()));
+      materialized = true;
+    }
 
     if (val.isNull())
     {
@@ -219,6 +223,12 @@ Value& MemberCONCATExpression::value(Context& ctx) const
     }
     if (val.type() == Type::ROWTYPE)
       throw RuntimeError(EXC_RT_TYPE_MISMATCH_S, val.type().levelDown().typeName(rv->table_decl().tupleName()).c_str());
+    /* refused: a null table is left null */
+    if (materialized)
+    {
+      const Type null_type = val.type();
+      val.swap(Value(null_type).to_lvalue(val.lvalue()));
+    }
     throw RuntimeError(EXC_RT_TYPE_MISMATCH_S, val.type().levelDown().typeName().c_str());
   }
 
